@@ -1,5 +1,6 @@
 """C02 Address assignment and label values are consistent across both passes."""
 from harness import asmcheck
+from checks import tracepart
 
 WHAT = ['status', 'image', 'addr', 'bytes']
 KINDS = {'lab', 'org', 'orgz', 'align', 'zone', 'zuntil', 'fill', 'i2', 'i3'}
@@ -25,9 +26,15 @@ def run(chk):
                 'LabelIsNextAddress, AlignIsLeastMultiple on the specification; each terminal scenario is rendered to '
                 'source, assembled by the real code and compared on status, per-line listing address, per-line bytes and '
                 'image. Non-trivial = contains a label, origin, alignment, zone or fill line; distinct by program text.')
+    chk.rule += (' Code -> specification: the repository example programs (real ISAs, up to 36 KB images) and seeded random rich '
+                 'carrier programs are assembled with the verification hooks on; every recorded pass-1 / pass-2 event and the image read '
+                 'back from the .bin must be a behaviour of spec/Trace_Asm.tla (address = zone cursor | origin | AlignUp, size, cursor '
+                 'after, zone bounds, label value, stable sort order, bytes = reserved size, overlap check, window onto the unmuted '
+                 'bytes); corrupted traces must be rejected (self-test).')
     chk.assumptions = ['labels immediately followed by an origin/alignment/zone directive are not generated (value left open)',
                        'carrier ISA (harness/carrier.py) makes label values observable as operand bytes',
                        'listing parser (harness/render.parse_listing) is trusted',
                        'simulation instances are samples; the exhaustive instances are complete for their alphabet and length']
     chk.exhaustive = True
     asmcheck.run_instances(chk, instances(chk.tier), WHAT, KINDS)
+    tracepart.run_traces(chk, 'C02', windows=False)
